@@ -13,8 +13,11 @@ _lazy_selections = {}
 
 
 def _buffer_owner(data):
-    base = getattr(data, "base", None)
-    return data if base is None else base
+    # the array at the bottom of the chain of numpy views (its own .base may be a foreign buffer
+    # object - np.frombuffer, memory maps - which views of it do not have as their .base)
+    while isinstance(getattr(data, "base", None), np.ndarray):
+        data = data.base
+    return data
 
 
 class RaggedBase:
